@@ -1,7 +1,15 @@
 """C15 - section outputs keep the screen equal to the stacked section contents; plain outputs
 degrade to appended lines without control codes.
 
-E2 (explicit-state BFS, mc/explore.py, states rebuilt by replaying the history on fresh objects).
+E2, explicit-state breadth-first exploration on the real objects; states are rebuilt by replaying the history on
+fresh objects (spec contract of mc/explore.py, `replay = True`).  The search loop is props/_c15_bfs.py, a
+level-synchronous variant of mc/explore.py with one global fingerprint set (exact, split-independent counts and
+less than half the executions); mc.explore.replay / rebuild are used as they are.
+
+Bounds.  quick: 3 sections depth 6 (contains every history with 1-2 sections), 2 sections + rotated text kind depth 5.
+thorough: 2 sections depth 8, 3 sections depth 7, 2 sections + rotated text kind depth 7.  Both: plain parts to a closed
+graph + every plain history to depth 4/5 without deduplication; no-dedup cross-check of the fingerprint (depth 3/4).
+The ANSI graph never closes (contents grow), every ANSI part is cut at its depth bound.
 
 ANSI part.  One real Output over a BufferedOutputStream with AnsiFormatter(forced=True), COLUMNS=8,
 a sentinel line written first.  After EVERY operation the bytes the operation emitted are drained from
@@ -19,11 +27,14 @@ Conventions / decisions (see also the final report of the builder):
   the code's ceil(len/width) assumes and what mc/term.py implements.
 * The texts are chosen per state, not per depth: every new logical line consists of the smallest letter
   not used by any line currently in the model, so new content is always distinguishable from everything
-  that is (or just was) on the screen - stale rows cannot hide behind equal text - while the number of
+  that is on the screen when the operation starts - stale rows cannot hide behind equal text (the screen is
+  compared after every single operation, and a state that failed is not expanded) - while the number of
   distinct states stays small.  The op tuple carries the literal text, so a history replays by itself.
 * clear(s, n) is only explored for 1 <= n <= logical lines of s (larger n: caller misuse, DESIGN.md 4);
   clear(s, 0) is not explored (0 is falsy and means "everything" in the code; the statement is silent).
-* Not demanded: where the cursor ends (it is part of the fingerprint instead), trailing blank rows,
+* Not demanded: where the cursor ends and blank rows below the last content row (invisible; the cursor is part
+  of the fingerprint instead, so a misplaced cursor is a different state and the first operation whose output
+  lands in the wrong place is reported),
   SectionOutput.content / .lines values, section.write() without newline, writes to the parent Output while
   sections exist, indentation, a terminal of finite height (scrolling), tabs / wide characters.
 * Fingerprint = mc.fingerprint.canon over the whole Output (its vars() recursively: every section's full
@@ -33,7 +44,7 @@ Conventions / decisions (see also the final report of the builder):
 """
 import os
 
-from mc import common, explore, report
+from mc import explore, report
 from props import _c15_bfs
 from mc.fingerprint import canon
 from mc.term import Term, Unsupported, wrap_rows
@@ -317,7 +328,6 @@ def main():
     else:
         # histories with <= 2 sections are a subset of this part (creating the third section is optional)
         runs.append(("ansi-3sections", AnsiSpec(3, CORE_KINDS), 6))
-        runs.append(("ansi-2sections", AnsiSpec(2, CORE_KINDS), 7))
         runs.append(("ansi-2sections-extra", AnsiSpec(2, CORE_KINDS + [extra]), 5))
         xdepth = 3
     runs.append(("plain-PlainFormatter", PlainSpec(3, CORE_KINDS + [extra], "plain"), 6))
